@@ -9,6 +9,7 @@ from hypothesis import strategies as st
 from ..runner import Outcome
 from ..doc import Doc
 from .. import eqv
+from ..wchoice import weighted
 
 ID = 'C26'
 LEVEL = 'exploration'
@@ -48,11 +49,11 @@ DATACOLS = ['A', 'R1', 'R2', 'L1', 'L2']
 # generator
 
 def _refspec(unknown_weight):
-  base = [st.tuples(st.just('tmp'), st.integers(0, 5)).map(list)] * 5 + \
-         [st.tuples(st.just('pos'), st.integers(0, 5)).map(list)] * 2 + [st.just(['zero'])]
+  pair = lambda kind: st.tuples(st.just(kind), st.integers(0, 5)).map(list)
+  known = weighted((5, pair('tmp')), (2, pair('pos')), (1, st.just(['zero'])))
   if unknown_weight:
-    base = base * unknown_weight + [st.tuples(st.just('unk'), st.integers(0, 5)).map(list)]
-  return st.one_of(*base)
+    return weighted((unknown_weight, known), (1, pair('unk')))
+  return known
 
 
 def _values(uw):
@@ -63,11 +64,11 @@ def _values(uw):
 
 def _bundle(uw, rw):
   """uw: how rare an unknown reference value is (0 = never); rw: same for unknown row ids."""
-  idspec = st.one_of(st.none(), st.integers(-4, -1), st.integers(-2, -1), st.integers(-2, -1))
-  rowspec_l = [st.tuples(st.just('tmp'), st.integers(0, 5)).map(list)] * 3 + [st.tuples(st.just('pos'), st.integers(0, 5)).map(list)]
+  pair = lambda kind: st.tuples(st.just(kind), st.integers(0, 5)).map(list)
+  idspec = weighted((1, st.none()), (1, st.integers(-4, -1)), (2, st.integers(-2, -1)))
+  rowspec = weighted((3, pair('tmp')), (1, pair('pos')))
   if rw:
-    rowspec_l = rowspec_l * rw + [st.tuples(st.just('unk'), st.integers(0, 5)).map(list)]
-  rowspec = st.one_of(*rowspec_l)
+    rowspec = weighted((rw, rowspec), (1, pair('unk')))
   vals = _values(uw)
   t = st.integers(0, 1)
   add = st.fixed_dictionaries({'k': st.just('add'), 't': t, 'single': st.booleans(),
@@ -79,11 +80,10 @@ def _bundle(uw, rw):
   negid = st.integers(-4, -1)
   first = st.fixed_dictionaries({'k': st.just('add'), 't': t, 'single': st.booleans(),
                                  'rows': st.lists(st.fixed_dictionaries({'id': negid, 'v': vals}), min_size=1, max_size=3)})
-  rest = st.lists(st.one_of(add, add, add, upd, upd, rem), min_size=1, max_size=5)
+  action = weighted((3, add), (2, upd), (1, rem))
+  rest = st.lists(action, min_size=1, max_size=5)
   # two thirds of the bundles open with an add that creates temp ids, so that later actions have something to use
-  return st.one_of(st.tuples(first, rest).map(lambda p: [p[0]] + p[1]),
-                   st.tuples(first, rest).map(lambda p: [p[0]] + p[1]),
-                   st.lists(st.one_of(add, add, add, upd, upd, rem), min_size=2, max_size=6))
+  return weighted((2, st.tuples(first, rest).map(lambda p: [p[0]] + p[1])), (1, st.lists(action, min_size=2, max_size=6)))
 
 
 def strategy(tier):
@@ -92,7 +92,7 @@ def strategy(tier):
     return st.fixed_dictionaries({'rows': st.tuples(st.integers(0, 4), st.integers(0, 4)).map(list), 'init': init,
                                   'bundle': _bundle(uw, rw)})
   # most bundles are fully resolvable (deep part of the space); some carry unknown reference values / row ids
-  return st.one_of(case(0, 0), case(0, 0), case(0, 0), case(0, 0), case(0, 0), case(12, 0), case(0, 6), case(20, 12))
+  return weighted((5, case(0, 0)), (1, case(12, 0)), (1, case(0, 6)), (1, case(20, 12)))
 
 
 # ---------------------------------------------------------------------------
